@@ -7,6 +7,7 @@
 //     operation trace go to the Lean model (trace inclusion, predicted directory, checkP).
 //   - "fault" session: renames / unlinks of the child fail with EIO periodically (strace inject … when=a+b).
 //   - "kill" runs    : a fresh child is SIGKILLed on entering its k-th rename/unlink (no simulation at all).
+//
 // No file of the repository is changed for this: the hooks are strace's.
 package main
 
@@ -1107,15 +1108,23 @@ func main() {
 	var specs []caseSpec
 	nCorpus := 0
 	if f.Replay != "" {
+		type det struct {
+			Detail struct{ Spec caseSpec }
+		}
 		var rp struct {
-			Case struct {
-				Detail struct{ Spec caseSpec }
-			}
+			Case               det
+			First_disagreement det
 		}
 		b, err := os.ReadFile(f.Replay)
 		must(err)
 		must(json.Unmarshal(b, &rp))
 		cs := rp.Case.Detail.Spec
+		if cs.Template == "" {
+			cs = rp.First_disagreement.Detail.Spec // an "obligation-broken" replay: the first disagreeing case
+		}
+		if cs.Template == "" {
+			panic("replay file names no scenario")
+		}
 		if cs.Mode == "fault" {
 			cs.Mode = "failat"
 		}
@@ -1138,13 +1147,13 @@ func main() {
 		for _, k := range templateKeys {
 			specs = append(specs, caseSpec{Mode: "stop", Template: k, NShards: 1 + r.Intn(2), Seed: r.U64(), ShardMerging: true})
 		}
-		for i := 0; i < f.N(14, 50); i++ {
+		for i := 0; i < f.N(14, 150); i++ {
 			specs = append(specs, randomSpec(r, "stop"))
 		}
-		for i := 0; i < f.N(30, 100); i++ {
+		for i := 0; i < f.N(30, 300); i++ {
 			specs = append(specs, randomSpec(r, "fault"))
 		}
-		for i := 0; i < f.N(2, 8); i++ {
+		for i := 0; i < f.N(2, 20); i++ {
 			cs := randomSpec(r, "kill")
 			cs.KillAt = 1 + r.Intn(4)
 			specs = append(specs, cs)
